@@ -202,7 +202,7 @@ def check_excludes(job):
     msgs = []
     try:
         box.build({"in/a.cmake": "set(A 1)\n"})
-        pats = {"cli": ["c1", "c2/"], "sfile": ["s1", "shared"], "user": ["u1", "shared"]}
+        pats = {"cli": ["c1", "c2/", "old*/"], "sfile": ["s1", "shared", "c2"], "user": ["u1", "shared", "old*"]}    # 'x/' and 'x' are different patterns
         argv = []
         for p in (pats["cli"] if "cli" in subset else []):
             argv += ["-e", p]
@@ -398,6 +398,31 @@ def check_wrong_type(job):
             "cls": "wrong-type" if msgs else None}
 
 
+def check_wrong_excludes(job):
+    """a wrongly typed exclude_filters value in one file source while another source gives a valid list: the union cannot
+    be formed, the run must be refused (never: the bad layer silently dropped)"""
+    bad_src, bad, good_src = job
+    box = fsbox.Box("c16x")
+    msgs = []
+    try:
+        box.build({"in/a.cmake": "set(A 1)\n"})
+        trees = {"sfile": {}, "user": {}}
+        trees[bad_src] = {"input": {"exclude_filters": bad}}
+        argv = []
+        if good_src == "cli":
+            argv = ["-e", "g1"]
+        elif good_src in trees:
+            trees[good_src] = {"input": {"exclude_filters": ["g1"]}}
+        st, status, exc = run_main(box, argv, trees["sfile"] or ({} if bad_src == "sfile" or good_src == "sfile" else None), trees["user"] or None)
+        if st is not None:
+            msgs.append(f"wrong-type: input.exclude_filters given {bad!r} in the {bad_src} file (a valid list comes from {good_src}) is "
+                        f"silently dropped: the run goes ahead with {sorted(st.input.exclude_filters)}")
+    finally:
+        box.cleanup()
+    return {"viol": msgs, "obs": common.digest([job, not msgs]), "n": 1, "nt": common.digest(job), "cls": "wrong-type" if msgs else None,
+            "case": {"wrong_excludes": list(job)}}
+
+
 def run(ctx):
     quick = ctx.tier == "quick"
     jobs = []
@@ -434,6 +459,9 @@ def run(ctx):
     ctx.sweep(check_outdir, ojobs, space="output directory resolution", selftest=2)
     wjobs = [(sec, opt, typ, src, bad) for sec, opt, typ in OPTIONS for src in ("sfile", "user") for bad in WRONG[typ]]
     ctx.sweep(check_wrong_type, wjobs, space="wrong-typed values", selftest=2)
+    xjobs = [(bs, bad, gs) for bs in ("sfile", "user") for bad in (7, True, {"k": "v"}, 1.5)
+             for gs in ("cli", "sfile", "user", "none") if gs != bs]
+    ctx.sweep(check_wrong_excludes, xjobs, space="wrongly typed exclude_filters below/above a valid list", selftest=1)
     flagsets = [fs for k in range(0, 5) for fs in itertools.combinations(("-r", "-p", "-e", "-o"), k)]
     ctx.sweep(check_cli_combo, [(fs, bg) for fs in flagsets for bg in (False, True)],
               space="subsets of command-line flags x backgrounds", selftest=2)
@@ -447,6 +475,8 @@ def run(ctx):
 
 
 def replay(case):
+    if isinstance(case, dict) and "wrong_excludes" in case:
+        return check_wrong_excludes(tuple(case["wrong_excludes"]))["viol"]
     if isinstance(case, list) and len(case) == 2 and isinstance(case[1], bool):
         return check_cli_combo((tuple(case[0]), case[1]))["viol"]
     if isinstance(case, list) and len(case) == 5 and case[4] in ("other", "unset"):
